@@ -819,8 +819,9 @@ def u_prm_other_length(W, sk):
 
 @unit(
     "lifetime.tables_follow_current_parameters",
-    props=["C17", "C03", "C09", "C10", "C16"],
+    props=["C17", "C03", "C09", "C10", "C16", "C08"],
     not_clauses={p: ["after_set_prms.sf_is_table_of_current_parameters", "set_prms.*"] for p in ("C03", "C09", "C10", "C16")},
+    only_clauses={"C08": ["after_set_prms.sf_is_table_of_current_parameters", "after_set_prms.pdf_is_table_of_current_parameters", "set_prms.*"]},
     targets=[
         "flodym.lifetime_models.StandardDeviationLifetimeModel.set_prms",
         "flodym.lifetime_models.FixedLifetime.set_prms",
@@ -880,6 +881,16 @@ def u_tables_follow_prms(W, sk):
         import numpy as np
 
         new = {p: np.array(a) * 1.7 + 0.3 for p, a in M.prm_arrays.items()}
+        # on some runs only one of the parameters gets new values (the other is handed over as it is)
+        names_ = list(new)
+        which_ = W.rng.choice(["all", "first_only", "last_only"]) if len(names_) > 1 else "all"
+        if which_ == "first_only":
+            for p_ in names_[1:]:
+                new[p_] = np.array(M.prm_arrays[p_], copy=True)
+        elif which_ == "last_only":
+            for p_ in names_[:-1]:
+                new[p_] = np.array(M.prm_arrays[p_], copy=True)
+        W.inputs["parameters_changed_by_set_prms"] = which_
     if carriers is not None:
         for p_ in new:
             W.call(lambda: carriers[p_].values.__setitem__(Ellipsis, new[p_]))
